@@ -584,6 +584,8 @@ func tCellOpt(spec string, execute bool) (res tResult) {
 		src, err = tOpProgram(f[1], f[2], f[3], f[4])
 	case f[0] == "L" && len(f) == 6:
 		src, err = tOpProgramL(f[1], f[2], f[3], f[4], f[5])
+	case f[0] == "X" && len(f) == 4:
+		src, err = tVariantProgram(f[1], f[2], f[3])
 	case f[0] == "C" && len(f) == 5:
 		src, err = tCoerceProgram(f[1], f[2], f[3], f[4])
 	default:
